@@ -621,7 +621,40 @@ class FactsProblem(Problem):
                     z.kill(kp)
             return
 
+    def _counted_for(self, node: Node):
+        """(var, lo term, lo offset) if `node` is `for var in range(lo, hi)` / `range(hi)` (step 1) whose variable and bounds are
+        not stored inside the loop: the variable then advances by exactly one per iteration."""
+        cache = self.__dict__.setdefault("_cf", {})
+        if node.id in cache:
+            return cache[node.id]
+        out = None
+        f = node.ast
+        if node.kind == "for" and isinstance(f, ast.For) and isinstance(f.target, ast.Name) and isinstance(f.iter, ast.Call) \
+                and isinstance(f.iter.func, ast.Name) and f.iter.func.id == "range" and not f.iter.keywords and 1 <= len(f.iter.args) <= 2:
+            v = f.target.id
+            stored = {U(t) for b in f.body for x in ast.walk(b) for t in store_targets(x)} | \
+                     {x.target.id for b in f.body for x in ast.walk(b) if isinstance(x, ast.For) and isinstance(x.target, ast.Name)}
+            names = {U(x) for a_ in f.iter.args for x in ast.walk(a_) if isinstance(x, (ast.Name, ast.Attribute))}
+            lo = lin(f.iter.args[0]) if len(f.iter.args) == 2 else (None, 0)
+            if v not in stored and not (names & stored) and lo is not None and not mentions(T(lo[0]), v):
+                out = (v, T(lo[0]), lo[1], {id(x) for b in f.body for x in ast.walk(b)})
+        cache[node.id] = out
+        return out
+
     def edge(self, n: Node, state: Facts, label: str, succ: Node) -> Facts | None:
+        z = self._edge(n, state, label, succ)
+        if z is not None and succ.kind == "for" and n is not succ:
+            cf = self._counted_for(succ)
+            if cf is not None:
+                v, lo_t, lo_k, body = cf
+                if n.ast is not None and id(n.ast) in body:
+                    z.shift(v, 1)                 # next iteration: the variable is one more than in the last
+                else:
+                    z.kill(v)
+                    z.add_eq(v, lo_t, lo_k)       # first iteration
+        return z
+
+    def _edge(self, n: Node, state: Facts, label: str, succ: Node) -> Facts | None:
         z = state.copy()
         a = n.ast
         if n.kind == "test":
@@ -648,11 +681,15 @@ class FactsProblem(Problem):
         if n.kind == "for":
             self.apply_calls(z, a.iter)
             if label == "iter":
-                for t in store_targets(a):
-                    kp = kill_path_of_target(t)
-                    if kp:
-                        z.kill(kp)
+                if self._counted_for(n) is None:
+                    for t in store_targets(a):
+                        kp = kill_path_of_target(t)
+                        if kp:
+                            z.kill(kp)
                 self._range_facts(z, a)
+            elif label == "done" and self._counted_for(n) is not None:
+                # the loop variable keeps its last value (or is unbound): what was tracked for the next iteration does not hold
+                z.kill(self._counted_for(n)[0])
             return z
         if n.kind == "with":
             for it in a.items:
